@@ -298,7 +298,11 @@ pub fn run_conc_case(rng: &mut Rng, idx: usize, thorough: bool) -> ConcOut {
                     Ok(true) => sh.commits.lock().unwrap().push(CommitRec { id, prev_root, new_root, changes: m.into_iter().collect(), t_start, t_end, flavour: match (via_overlay, nb) { (false, true) => "nb", (false, false) => "blocking", (true, true) => "overlay-nb", (true, false) => "overlay-blocking" } }),
                     Ok(false) => {}
                     Err(e) => {
-                        if e.contains("no longer valid") {
+                        // a refused commit leaves the handle usable (a failed one poisons it); whether the
+                        // refusal was justified is judged afterwards from the chain of successful commits
+                        // (a commit whose base was current at that time and that is missing shows up as
+                        // a gap), not from the wording of the error
+                        if !db.is_poisoned() {
                             sh.stale.fetch_add(1, Ordering::Relaxed);
                         } else {
                             sh.errors.lock().unwrap().push(format!("commit failed: {}", e));
